@@ -153,25 +153,36 @@ example : fullRowOf { column := 1, row := 1, absCol := true, absRow := true }
 
 /-! ### R1C1 references -/
 
-/-- An R1C1 reference printed by stringify_reference (`context = None`), every i32 row/column and
-    both bracket forms, is read back by consume_reference_r1c1. -/
+/-- the coordinates `to_rc_format` can write: any `i32` offset in brackets, a non-negative `i32`
+    absolute number (after fix F26-r1c-name the lexer reads an unbracketed number only when it starts
+    with a digit; absolute rows and columns are never negative) -/
+def RcWritable (r : PRef) : Prop :=
+  I32 r.row ∧ I32 r.column ∧ (r.absRow = true → 0 ≤ r.row) ∧ (r.absCol = true → 0 ≤ r.column)
+
+/-- An R1C1 reference printed by stringify_reference (`context = None`), every i32 offset, every
+    non-negative absolute row/column and both bracket forms, is read back by consume_reference_r1c1. -/
 theorem r1c1_roundtrip (cc : CharClass) (hcc : CharClassOK cc) (r : PRef) (rest : List Char)
-    (hr : I32 r.row) (hc : I32 r.column)
+    (hw : RcWritable r)
     (hd : stops isDigit rest = true) (ha : stops cc.alnum rest = true) :
     consumeReferenceR1C1 cc (printR1C1 [] r ++ rest) = some (r, rest) :=
-  consumeReferenceR1C1_print cc hcc r rest hr hc hd ha
+  consumeReferenceR1C1_print cc hcc r rest hw.1 hw.2.1 hw.2.2.1 hw.2.2.2 hd ha
 
 theorem r1c1_range_roundtrip (cc : CharClass) (hcc : CharClassOK cc) (a b : PRef) (rest : List Char)
-    (har : I32 a.row) (hac : I32 a.column) (hbr : I32 b.row) (hbc : I32 b.column)
+    (hwa : RcWritable a) (hwb : RcWritable b)
     (hd : stops isDigit rest = true) (ha : stops cc.alnum rest = true) :
     consumeRangeR1C1 cc (printRangeR1C1 [] a b ++ rest)
       = some ({ left := a, right := some b }, rest) := by
   unfold printRangeR1C1 consumeRangeR1C1
   rw [List.append_assoc, List.cons_append,
-    consumeReferenceR1C1_print cc hcc a _ har hac (by simp [stops]; decide)
+    r1c1_roundtrip cc hcc a _ hwa (by simp [stops]; decide)
       (by simp [stops, hcc.colon_not_alnum])]
   simp only [if_true]
-  rw [consumeReferenceR1C1_print cc hcc b rest hbr hbc hd ha]
+  rw [r1c1_roundtrip cc hcc b rest hwb hd ha]
+
+/-- the pinned tree's defect, on the repaired model: `R1C+1` is no longer a reference -/
+theorem r1c1_sign_rejected (cc : CharClass) :
+    consumeReferenceR1C1 cc "R1C+1".toList = none ∧ consumeReferenceR1C1 cc "R1C-1".toList = none := by
+  constructor <;> rfl
 
 /-! ### sheet names -/
 
